@@ -199,6 +199,13 @@ def run_phase(key):
         w = np.abs(w) + 0j
     elif kind == 'flip':
         w = (np.abs(w) + 0j) * np.where(np.arange(F) % 2 == 0, 1, -1)[:, None]
+    elif kind == 'zero_bin' and F > 1:
+        w[..., F // 2, :] = 0                      # what Souden / WMWF return for a zero PSD bin
+    elif kind == 'orthogonal' and F > 1 and D > 1:
+        w[..., 0, :] = 0
+        w[..., 0, 0] = 1
+        w[..., 1, :] = 0
+        w[..., 1, 1] = 1j                          # exactly orthogonal neighbours: inner product 0
     w.setflags(write=False)
     snap = w.copy()
     try:
@@ -218,6 +225,8 @@ def run_phase(key):
             v = np.vdot(g[f], g[f - 1])
             if abs(v.imag) > 1e-9 * (1 + abs(v)) or v.real < -1e-9 * (1 + abs(v)):
                 return viol(f'leading index {idx}: bins {f - 1},{f} not phase aligned: w_f^H w_(f-1) = {v!r}')
+        if kind in ('zero_bin', 'orthogonal'):
+            continue     # a zero inner product leaves the phase of the following bins undetermined
         # loop reference
         ref = np.array(w[idx])
         for f in range(1, F):
@@ -308,7 +317,7 @@ def subchecks(tier, seed):
         for lead in ((), (1,), (2,), (3,), (2, 2), (2, 3), (3, 2, 2)):
             for F in (1, 2, 3, 5, 32):
                 for D in (1, 2, 3, 8):
-                    for kind in ('generic', 'aligned', 'flip'):
+                    for kind in ('generic', 'aligned', 'flip', 'zero_bin', 'orthogonal'):
                         yield (lead, F, D, kind, seed)
     subs.append(Sub('phase_correction', ('lead', 'F', 'D', 'kind', 'seed'), phase_cases, run_phase))
 
